@@ -36,6 +36,11 @@ type FakeDynamo struct {
 	Tables map[string]*DynTable
 	Region string
 	Log    []string
+	// FailReads > 0: every read request is answered with InternalServerError (HTTP 500) FailReads times before it is
+	// served; a retry that the plugin sends after such an error is served normally (and is stale unless it asks for
+	// a consistent read).
+	FailReads int
+	failed    map[string]int
 	// Unsupported collects expressions outside the fake's grammar (reported as a machinery gap, not a violation).
 	Unsupported []string
 }
@@ -128,8 +133,26 @@ func project(item map[string]*AV, proj *string, names map[string]string) (map[st
 }
 
 // GetItem implements the read-by-key semantics.
+func (f *FakeDynamo) transient(op string) *DynError {
+	if f.FailReads <= 0 {
+		return nil
+	}
+	if f.failed == nil {
+		f.failed = map[string]int{}
+	}
+	if f.failed[op] < f.FailReads {
+		f.failed[op]++
+		return &DynError{"InternalServerError", "internal server error (injected)"}
+	}
+	f.failed[op] = 0
+	return nil
+}
+
 func (f *FakeDynamo) GetItem(table *string, key map[string]*AV, names map[string]string, proj *string, consistent bool) (map[string]*AV, *DynError) {
 	f.Log = append(f.Log, "GetItem")
+	if e := f.transient("GetItem"); e != nil {
+		return nil, e
+	}
 	t, derr := f.table(table)
 	if derr != nil {
 		return nil, derr
@@ -203,6 +226,9 @@ func (f *FakeDynamo) PutItem(table *string, item map[string]*AV, cond *string, n
 // Query implements partition-key queries with ordering and limit.
 func (f *FakeDynamo) Query(table *string, keyCond *string, names map[string]string, values map[string]*AV, proj *string, limit *int64, forward *bool, consistent bool) ([]map[string]*AV, *DynError) {
 	f.Log = append(f.Log, "Query")
+	if e := f.transient("Query"); e != nil {
+		return nil, e
+	}
 	t, derr := f.table(table)
 	if derr != nil {
 		return nil, derr
@@ -509,6 +535,9 @@ func errV2(e *DynError) error {
 	}
 	if e.Code == "ResourceNotFoundException" {
 		return &typesv2.ResourceNotFoundException{Message: &e.Msg}
+	}
+	if e.Code == "InternalServerError" {
+		return &typesv2.InternalServerError{Message: &e.Msg}
 	}
 	return errors.New(e.Error())
 }
